@@ -137,6 +137,11 @@ def projects(draw, max_steps=9, allow_always=True, allow_clash=False):
             k = draw(st.integers(0, 5))
             if k == 0:
                 step['outs'] = ['gen/' + o for o in step['outs']]
+            elif k == 2:
+                # the same base names as another step's, in its own directory
+                step['outs'] = ['d{}/tbl_{}{}'.format(
+                    sid, j, posixpath.splitext(o)[1])
+                    for j, o in enumerate(step['outs'])]
             elif k == 1 and nout > 1:
                 # outputs in different directories (some used by nothing
                 # else), the first one in the build root
